@@ -13,6 +13,7 @@ def build(R):
     outgoing_model.install_uninterpreted_strings(R)
     outgoing_model.install_writers(R)
     outgoing_model.install_entries(R)
+    outgoing_model.install_packets(R)
 
 
 def configure(ctx, R):
